@@ -56,7 +56,7 @@ PROPS["C08"] = {"units": ["print"], "kani": [], "replay": [], "title": "Compact 
 
 PROPS["C13"] = {"units": ["print"], "kani": [], "replay": [], "title": "Pretty-print layout", "level": "proof",
     "level_text": "The generic container printers (print_array/print_object) are proved to emit exactly the documented layout for any number of items and any option record, relative to the trait contract of their items; pre_compute_*_size are proved to compute the one-line width formula and the expansion rule. Whole values: Value::pre_compute_size, Value::fmt_with_size and Value::fmt_with are proved for every value and option record (value_ptext); lemma_sizes_len proves that printing consumes exactly the sizes the first pass produced; lemma_ptext_containers gives the printed text recursively -- a container is laid out according to ITS OWN size (one line with the configured spacing, dedicated spacing when empty; or one child per line one unit deeper, closing bracket on its own line) around its children's own texts; lemma_never_expanded proves that without limits (inline, compact presets) nothing is ever expanded, so no line break is printed; lemma_width_is_len proves that a value whose size is Width(w) prints on one line of exactly w characters at any depth (the width compared with the limits is the number of characters actually printed).",
-    "level_note": _PRINT_NOTE +, "design_ref": "DESIGN.md §6.3"}
+    "level_note": _PRINT_NOTE, "design_ref": "DESIGN.md §6.3"}
 PROPS["C04"] = {"units": ["print"], "kani": [], "replay": [], "title": "Printing round-trips", "level": "proof",
     "level_text": "String level: string_literal emits '\"' esc_str(s) '\"' for every string (proved); the container emitters emit only the documented separators and whitespace (proved). The re-parse half is the parser's contracts (C01/C02).",
     "level_note": _PRINT_NOTE, "design_ref": "DESIGN.md §6.3"}
